@@ -12,7 +12,7 @@ pub fn prop() -> Prop {
     Prop {
         id: "C08",
         level: "exploration",
-        rule: "(1) all token strings of length <= 3 over the full vocabulary (keywords, operators, delimiters, identifier spellings that embed/prefix/suffix keywords, numbers, strings) rendered with every per-gap separator choice from {nothing where maximal munch allows, space, newline, line comment}: the token stream must be the concatenation of the tokens of the pieces, every piece one token spanning exactly its text, keywords not identifiers, lexeme kept; (2) all strings of length <= 3 over {a, é, _, 1, 0, .} against a reference maximal-munch lexer; (3) all string contents of length <= 4 over 8 characters encoded with the documented escapes: the parsed String node must equal the content; all raw literal bodies of length <= 4 over {a, quote, backslash, n} followed by more input: the literal ends at the first unescaped quote and decodes as the reference decoder says; (3d) character sweep: every printable ASCII character, tab / newline / carriage return and 24 Unicode representatives (letters of several scripts and widths, digits, white space, combining mark, format characters, symbols), singly and in every ordered pair, inside / at the start / at the end of a word, raw and after a backslash in a string literal, inside / at the end of a comment, and between tokens (illegal characters must be refused); (3e) runs of 1..6 backslashes followed by a quote, the end of the literal or more text, starting at every offset 0..40 (escaped and raw forms), and pairs of special characters adjacent or one apart at every position of literals up to 130 characters; (3c) token-length ladder: one identifier / digit run / fraction / string literal / comment / white-space run of every length around each power of two up to 1025 (8193 thorough), with one escape or wide character at every position near a multiple of 8 and at both ends; (4) nothing is dropped: a text with an illegal character, an unterminated string or a lone & or | is rejected by parse, and between consecutive token spans only white space and comments occur. Non-trivial = more than one token or a literal with an escape; distinct = distinct texts",
+        rule: "(1) all token strings of length <= 3 over the full vocabulary (keywords, operators, delimiters, identifier spellings that embed/prefix/suffix keywords, numbers, strings) rendered with every per-gap separator choice from {nothing where maximal munch allows, space, newline, line comment}: the token stream must be the concatenation of the tokens of the pieces, every piece one token spanning exactly its text, keywords not identifiers, lexeme kept; (2) all strings of length <= 3 over {a, é, _, 1, 0, .} against a reference maximal-munch lexer; (3) all string contents of length <= 4 over 8 characters encoded with the documented escapes: the parsed String node must equal the content; all raw literal bodies of length <= 4 over {a, quote, backslash, n} followed by more input: the literal ends at the first unescaped quote and decodes as the reference decoder says; (3d) character sweep: every printable ASCII character, tab / newline / carriage return and 24 Unicode representatives (letters of several scripts and widths, digits, white space, combining mark, format characters, symbols), singly and in every ordered pair, inside / at the start / at the end of a word, raw and after a backslash in a string literal, inside / at the end of a comment, and between tokens (illegal characters must be refused); (3f) escape sequences of other languages (a backslash before every ASCII letter and digit with 26 continuations: hex digits incl. surrogates, braces, octal): only the four documented escapes exist; (3e) runs of 1..6 backslashes followed by a quote, the end of the literal or more text, starting at every offset 0..40 (escaped and raw forms), and pairs of special characters adjacent or one apart at every position of literals up to 130 characters; (3c) token-length ladder: one identifier / digit run / fraction / string literal / comment / white-space run of every length around each power of two up to 1025 (8193 thorough), with one escape or wide character at every position near a multiple of 8 and at both ends; (4) nothing is dropped: a text with an illegal character, an unterminated string or a lone & or | is rejected by parse, and between consecutive token spans only white space and comments occur. Non-trivial = more than one token or a literal with an escape; distinct = distinct texts",
         assumptions: &[
             "token kinds are compared through their Debug rendering, learnt from single-token inputs (no kind name is hard-coded); the documented token shapes are those of printer::may_touch and the reference lexer in this file",
         ],
@@ -502,9 +502,51 @@ fn backslash_runs(sh: &mut Shard) {
     }
 }
 
+/// Escape sequences of OTHER languages: a backslash followed by every ASCII letter or digit and by the
+/// continuations such sequences take elsewhere (hex digits, braces, octal). Only the four documented escapes
+/// exist; everything else is a backslash followed by ordinary characters.
+pub fn foreign_escape_bodies() -> Vec<String> {
+    let mut v = Vec::new();
+    let conts = [
+        "", "0", "00", "41", "041", "0041", "00e9", "00E9", "D83C", "d83c", "D800", "DFFF", "dfff", "FFFF", "0000", "D83C\\uDFC6", "{41}", "{1F600}", "{D800}", "{110000}", "{", "101", "377", "400", "x", "U0001F600",
+    ];
+    for c in ('a'..='z').chain('A'..='Z').chain('0'..='9') {
+        for k in conts {
+            v.push(format!("\\{c}{k}"));
+            v.push(format!("a\\{c}{k}b"));
+        }
+    }
+    v
+}
+
+fn foreign_escapes(sh: &mut Shard) {
+    for body in foreign_escape_bodies() {
+        if !sh.mine() {
+            continue;
+        }
+        let raw = format!("{body}\"");
+        let text = format!("\"{raw}");
+        let t = text.clone();
+        sh.begin(&|| t.clone());
+        sh.count("family:foreign-escapes");
+        sh.nontrivial(&text);
+        let Some((decoded, used)) = reference_string(&raw) else { continue };
+        if used != raw.len() {
+            continue;
+        }
+        match parse_guarded(&text) {
+            Parsed::Ok(ast) if string_node(&ast) == Some(&decoded) => {}
+            Parsed::Ok(ast) => fail(sh, "foreign-escapes", &text, format!("the literal denotes {:?}, the documented escapes give {decoded:?}", string_node(&ast))),
+            Parsed::Err(e) => fail(sh, "foreign-escapes", &text, format!("rejected: {e}")),
+            Parsed::Panic(p) => fail(sh, "foreign-escapes", &text, format!("panic: {p}")),
+        }
+    }
+}
+
 fn run(sh: &mut Shard) {
     let tier = sh.cfg.tier;
     length_ladder(sh);
+    foreign_escapes(sh);
     backslash_runs(sh);
     char_sweep(sh);
     let vocab = vocabulary();
@@ -803,7 +845,7 @@ fn replay(sh: &mut Shard, case: &Value) {
 }
 
 fn vacuity(m: &Merged) -> Option<String> {
-    for fam in ["sequences", "words", "length-ladder", "backslash-runs", "char-sweep", "string-contents", "raw-bodies", "illegal", "spans"] {
+    for fam in ["sequences", "words", "length-ladder", "backslash-runs", "foreign-escapes", "char-sweep", "string-contents", "raw-bodies", "illegal", "spans"] {
         if m.counters.get(&format!("family:{fam}")).copied().unwrap_or(0) == 0 {
             return Some(format!("family {fam} produced no case"));
         }
